@@ -220,11 +220,21 @@ def r2_sites(prog, rep: Report, ss: Cls, rule: str = "C10.R2", floor: int = 3):
             new_pair = _new_span_pair(loop, a0, a1, f)
             a = [a0, a1] + list(a[2:])
         role = f"init:branch{k}"
-        rep.check(rule, f, role + ":roles", stored is not None and new_pair is not None,
-                  f"eq_relation({new_pair}, {stored})",
-                  f"argument roles of `{src(c)}` are not (new start, new end, kept start, kept end at one index)",
-                  scenario="construction with PartOf/Includes keeps or drops the wrong spans (converse relation), so "
-                           "len(SpanSet(...)) and every operator result differ from the definition", line=c.lineno)
+        if stored is not None and new_pair is not None:
+            rep.ok(rule, f, role + ":roles", f"eq_relation({new_pair}, {stored})")
+        else:
+            # positively wrong: the kept pair stands in the first two positions (the converse relation), or the two kept components
+            # come from different positions; anything else is a shape this rule does not follow
+            conv = _stored_pair(a[0], a[1], f, flow) if len(a) == 4 else None
+            mixed = len(a) == 4 and stored is None and all(isinstance(x, ast.Subscript) and dotted(x.value) and dotted(x.value)[0] == f.self_name
+                                                            for x in (a[2], a[3])) and src(a[2].slice) != src(a[3].slice)
+            if conv is not None or mixed:
+                rep.viol(rule, f, role + ":roles", f"argument roles of `{src(c)}` are not (new start, new end, kept start, kept end at one index)",
+                         scenario="construction with PartOf/Includes keeps or drops the wrong spans (converse relation), so "
+                                  "len(SpanSet(...)) and every operator result differ from the definition", line=c.lineno)
+            else:
+                rep.unrec(rule, f, role + ":roles", f"the arguments of `{src(c)[:120]}` could not be traced to (new span, kept span at one index)",
+                          c.lineno)
         # keep-iff-no-match: flag False + break inside the match; append both under the flag after the inner loop
         ok, why = _keep_iff_no_match(loop, inner, c, a, f)
         rep.check(rule, f, role + ":keep-iff-no-match", ok, "span appended iff the scan over the kept spans found no match",
